@@ -42,6 +42,7 @@ type Prog struct {
 	strIDs          map[string]int
 	modInfos        map[*ssa.Function]*modInfo
 	addrTaken       map[*ssa.Function]bool
+	rooted          map[*ssa.Function]map[string]int // object-precise write sets (rooted.go)
 	exportedMethods []*ssa.Function
 	boxedFns        map[*ssa.Function]bool
 	vtaCallees      map[*ssa.Function]map[*ssa.Function]bool
